@@ -242,6 +242,19 @@ pub fn check(case: &Case, obs: &Obs) -> CheckResult {
             obs.label("fault: handler error");
             judge(&format!("handler error at unit {i}"), &txt, &o, Ok(case.inject.build()), &incl_i, &incl_i)?;
         }
+        // 1b. a response datum of a device-defined type whose formatting fails with the injected error (first, in the
+        // middle or last among the unit's data): the message fails with exactly that error, like any other failure
+        if u.header.query {
+            for at in [0usize, case.plans[i].respond.len() / 2, case.plans[i].respond.len()] {
+                let mut plans = case.plans.clone();
+                let pos = at.min(plans[i].respond.len());
+                plans[i].respond.insert(pos, crate::rec::RespDatum::Failing(case.inject));
+                let o = run_vec(&r.bytes, &plans);
+                runs += 1;
+                obs.label("fault: response datum fails to format");
+                judge(&format!("failing response datum {at} of unit {i}"), &txt, &o, Ok(case.inject.build()), &incl_i, &incl_i)?;
+            }
+        }
         // 2. missing parameter
         {
             let mut plans = case.plans.clone();
